@@ -584,6 +584,11 @@ package rueidis
 //@ func lru.Update
 //@   modifies *
 //@   assert [C07 stored-expiry-is-the-earlier-of-client-and-server] at approximateSize: pxat == value.getExpireAt() && pxat <= cpttl && (pxat == cpttl || (pxat == old(value).getExpireAt() && pxat != 0))
+//@   assert [C10 the-successor-is-read-while-the-element-is-still-linked] at Next: inlist(arg0)
+//@   assert [C10 in-flight-entries-are-never-evicted] at Remove: e.val.typ != 0 && arg1 == ele
+//@   assert [C10 only-completed-entries-are-unregistered] at delete: e.val.typ != 0
+//@   loop 0: repeat-only-if [C10 the-walk-moves-to-the-successor-taken-before-any-removal] ele == returned(Next)
+//@   loop 0: invariant [C10] ele == nil || inlist(ele)
 
 // the reader stamps the server's expiry on the reply before committing it: a PTTL reply of 0 or more (0 included: the key
 // expires now) gives request... arrival time + PTTL; a negative PTTL (no expiry / no key) leaves the reply without a server
@@ -639,3 +644,11 @@ package rueidis
 //@   assert [C21 replica-only-if-every-command-of-the-batch-was-approved] at pick: repl ==> calls(toReplica) == len(multi)
 //@   assert [C21 commands-are-asked-about-in-order] at toReplica: 0 <= calls(toReplica) && calls(toReplica) < len(multi) && arg1 == multi[calls(toReplica)]
 //@   loop 0: invariant [C21] 1 <= i && i <= len(multi) && (repl ==> calls(toReplica) == i)
+
+// ---------------------------------------------------------------------------------------------
+// C10 — the eviction loop of lru.Update (lru.go): it walks the list from the least recently used end while the accounted
+// size exceeds the limit; it reads an element's successor only while that element is still linked (a removed element has
+// none: reading it afterwards ends the walk after one eviction — the defect repaired in e7e89a2), it never evicts an
+// in-flight entry, every eviction takes exactly the evicted entry's size off the account, and it stops only when the
+// size is within the limit or the whole list has been walked.
+// (the clauses are part of the contract of lru.Update above, next to its C07 clause)
